@@ -813,6 +813,18 @@ def judge_graders(spec, rec):
             rec.cls('credit/off-4-decimal-grid')
         classify(rec, base, m, flag, attempt)
         obs.append({'attempt': attempt, 'credit': m, 'result': res})
+    # ... and AFTER the grader has graded with attempt numbers: the attempt omitted, twice in a row - a configuration error
+    # each time (a seeded change remembered the last attempt before the failing look-up, so that the call following the
+    # error was graded with the stale credit)
+    for k in range(2):
+        st_, r = call(grader, None, inp if isinstance(inp, str) else list(inp))
+        rec.calls()
+        if st_ == 'ok':
+            raise Violation('missing-attempt/graded', 'no attempt number given (call %d after graded attempts %r), yet a result '
+                            'came back: %r' % (k + 1, spec['attempts'], r))
+        if not isinstance(r, ConfigError):
+            raise Violation('missing-attempt/wrong-error', 'no attempt number: %s: %s' % (type(r).__name__, r))
+    rec.cls('attempt/omitted-after-graded-attempts')
     return {'base': base, 'with_credit': obs}
 
 
